@@ -6234,6 +6234,10 @@ class FlowIRConcrete(object):
         if FlowIR.LabelGlobal not in self._flowir[FlowIR.FieldVariables][platform]:
             self._flowir[FlowIR.FieldVariables][platform][FlowIR.LabelGlobal] = {}
 
+        # VV: get_platform_stage_variables() expects every platform to have a `stages` collection
+        if FlowIR.LabelStages not in self._flowir[FlowIR.FieldVariables][platform]:
+            self._flowir[FlowIR.FieldVariables][platform][FlowIR.LabelStages] = {}
+
         self._flowir[FlowIR.FieldVariables][platform][FlowIR.LabelGlobal][variable] = value
 
         self._cache.clear()
